@@ -92,6 +92,15 @@ CLAIMED = {
             'by reading every modelled value back at the end.',
             'Trusted: the reference store and error-cause model; harness-side canonicalisation with the library encoder; computed and uninitialised properties are not value-modelled.',
             'DESIGN.md section 3 (C15)'),
+    'C16': ('exploration',
+            'deterministic simulation: seeded subscribe/renew/cancel/change timelines against a real COV device stack under the virtual clock; subscription/notification timeline monitor, notifications decoded from emitted frames by an independent decoder',
+            'A device stack with analog (increment), binary, multi-state and pulse-converter objects serves seeded timelines from 1-3 real subscriber stacks: subscribe / renew / cancel with '
+            'lifetimes 0..120 s or absent, confirmed or unconfirmed, local value and status-flag changes incl. sub-increment steps, returns and bursts in one instant, reads of '
+            'Active_COV_Subscriptions, virtual time running past every expiry; modes strict, jitter, dead subscriber, lossy. The monitor requires for every subscription, in order: ack and '
+            'initial notification, one notification per qualifying change of the requested kind with current values and remaining lifetime, nothing after cancel/expiry, re-subscription '
+            'replacing lifetime and kind, and the active-subscriptions list equal to the live set.',
+            'Trusted: the monitor; bursts may yield 1..(qualifying changes) notifications; an increment object is held by one subscription at a time; edge ties are not judged; relaxed clauses under delay/loss.',
+            'DESIGN.md section 3 (C16)'),
     'C17': ('exploration',
             'deterministic simulation: seeded and enumerated command sequences against all 20 commandable classes, direct and over the wire, 16-slot reference model with slot-6 timer model under the virtual clock',
             'Every command sequence of bounded length over 4 priorities x 3 values x {write, relinquish} for each of the 20 *CmdObject classes (direct access), plus seeded sequences of up to 100 '
